@@ -244,11 +244,21 @@ func (c *ctx) nt(sg string) {
 	c.o.NonTrivial(sg)
 }
 
+// canon: what two evaluations are compared on.  A failing statement is compared by csvq's error code
+// only: with several workers the row whose error is reported first (and with it the value quoted in the
+// message) depends on the schedule, which is no concern of this property.
 func canon(out string, err error) string {
 	if err != nil {
-		return "ERROR: " + strings.SplitN(err.Error(), "\n", 2)[0]
+		return fmt.Sprintf("ERROR code=%d", hc.ErrCode(err))
 	}
 	return out
+}
+
+func errText(err error) string {
+	if err == nil {
+		return ""
+	}
+	return strings.SplitN(err.Error(), "\n", 2)[0]
 }
 
 func stmtText(s csvqparser.Statement) (txt string) {
@@ -545,7 +555,7 @@ func runChild(seed int64, n int, dir string, withCorpus bool) {
 			r1, e1 := c.execChecked(q+";", "plain")
 			r2, e2 := c.execChecked(q+";", "plain")
 			if canon(r1, e1) != canon(r2, e2) {
-				o.Law("repeat_eval:plain", map[string]string{"sql": q, "first": canon(r1, e1), "second": canon(r2, e2)})
+				o.Law("repeat_eval:plain", map[string]string{"sql": q, "first": canon(r1, e1), "second": canon(r2, e2), "first_error": errText(e1), "second_error": errText(e2)})
 			}
 			pq := strings.Replace(q, " FROM t", ", ? FROM t", 1)
 			name := fmt.Sprintf("cps%d", ci)
@@ -554,7 +564,7 @@ func runChild(seed int64, n int, dir string, withCorpus bool) {
 				p1, pe1 := c.execChecked(ex, "prepared")
 				p2, pe2 := c.execChecked(ex, "prepared")
 				if canon(p1, pe1) != canon(p2, pe2) {
-					o.Law("repeat_eval:prepared", map[string]string{"prepare": pq, "execute": ex, "first": canon(p1, pe1), "second": canon(p2, pe2)})
+					o.Law("repeat_eval:prepared", map[string]string{"prepare": pq, "execute": ex, "first": canon(p1, pe1), "second": canon(p2, pe2), "first_error": errText(pe1), "second_error": errText(pe2)})
 				}
 			}
 			v := fmt.Sprintf("@cw%d", ci)
@@ -577,7 +587,7 @@ func runChild(seed int64, n int, dir string, withCorpus bool) {
 			r1, e1 := c.execChecked(q+";", kind)
 			r2, e2 := c.execChecked(q+";", kind)
 			if canon(r1, e1) != canon(r2, e2) {
-				o.Law("repeat_eval:plain", map[string]string{"sql": q, "first": canon(r1, e1), "second": canon(r2, e2)})
+				o.Law("repeat_eval:plain", map[string]string{"sql": q, "first": canon(r1, e1), "second": canon(r2, e2), "first_error": errText(e1), "second_error": errText(e2)})
 			}
 			c.nt(fmt.Sprintf("plain/%s/%v/%d", form, e1 != nil, len(r1)%97))
 			if len(o.Samples) < 4 {
@@ -605,7 +615,7 @@ func runChild(seed int64, n int, dir string, withCorpus bool) {
 			r1, e1 := c.execChecked(q, kind)
 			r2, e2 := c.execChecked(q, kind)
 			if canon(r1, e1) != canon(r2, e2) {
-				o.Law("repeat_eval:udf", map[string]string{"declare": decl, "sql": q, "first": canon(r1, e1), "second": canon(r2, e2)})
+				o.Law("repeat_eval:udf", map[string]string{"declare": decl, "sql": q, "first": canon(r1, e1), "second": canon(r2, e2), "first_error": errText(e1), "second_error": errText(e2)})
 			}
 			c.nt(fmt.Sprintf("udf/%v/%d", e1 != nil, len(r1)%97))
 			if len(o.Samples) < 6 {
@@ -626,7 +636,7 @@ func runChild(seed int64, n int, dir string, withCorpus bool) {
 			r1, e1 := c.execChecked(ex, kind)
 			r2, e2 := c.execChecked(ex, kind)
 			if canon(r1, e1) != canon(r2, e2) {
-				o.Law("repeat_eval:prepared", map[string]string{"prepare": q, "execute": ex, "first": canon(r1, e1), "second": canon(r2, e2)})
+				o.Law("repeat_eval:prepared", map[string]string{"prepare": q, "execute": ex, "first": canon(r1, e1), "second": canon(r2, e2), "first_error": errText(e1), "second_error": errText(e2)})
 			}
 			c.nt(fmt.Sprintf("prepared/%s/%v/%d", form, e1 != nil, len(r1)%97))
 		case "reread_table":
